@@ -280,6 +280,21 @@ var specs = map[string]Spec{
 		QuickFloors: map[string]int64{"handshakes": 300, "admitted": 60, "refused": 60},
 		MaxSamples:  3,
 	},
+	"C10": {
+		Engine: "muxsim", Run: "^TestMux$", Race: true,
+		RaceViolation: regexp.MustCompile(`multiMuxManager\)\.(AddConnection|unregisterMux|GetMuxConnections|notifyChange|onClose)`),
+		QuickShards: 16, ThoroughShards: 16, QuickWatchdog: 10 * time.Minute, ThoroughWatchdog: 90 * time.Minute,
+		MaxProcs: []int{16, 4, 2, 1},
+		Level:     "fault_enumeration",
+		LevelText: "The real mux provider, multi-mux manager and managed sessions run over net.Pipe connections handed out by a scripted connection provider in virtual time. Every fault script over seven per-attempt outcomes (dial failure, peer closes at once, peer silent, yamux setup error, peer talks garbage, session dies later, session closed locally) up to a length bound for pool sizes 1-2 and random longer scripts for pools up to 4 are run to heal: the table may never exceed the limit (checked inside the manager's own list-update callback and at the peer), and 90 virtual seconds after the last fault the pool must be at full strength with the provider reporting no free slot, every slot carrying a stream. The lifetime is cancelled at the k-th occurrence of every provider step (before/after NewConnection, before/after session setup, before/after registration): afterwards the manager must report closed, no session may stay registered and every connection ever handed to the provider must have been closed.",
+		LevelNote: "Fault and cancel positions are logical (k-th occurrence of a provider step) and enumerated; the thread interleaving around them is sampled under -race. The scripted provider consumes 3 ms of virtual time per attempt (a real dial/accept blocks; the provider retries without back-off). Real TCP establisher/receiver are exercised by the tlsmatrix and wire engines.",
+		Technique: "runtime monitor + fault injection: scripted connection outcomes and cancellation at enumerated provider steps on the real provider/manager/session in virtual time; limit, permit-conservation, heal and everything-closed oracles; race detector on the session table",
+		DesignRef: "DESIGN.md §4 C10",
+		Rule:      "cases = pool size x fault script [x cancel step kind x occurrence]; distinct = distinct (pool size, script, cancel point) tuples; all non-trivial",
+		Assumptions: []string{"net.Pipe + yamux in a synctest bubble; harness-side peers are yamux clients", "ConnectionWriteTimeout 2 s for the sessions built by the scripted session function"},
+		QuickFloors: map[string]int64{"scripts": 400, "healed_to_full_strength": 200, "cancel_points_hit": 100},
+		MaxSamples:  2,
+	},
 	"C05": {
 		Engine: "ringmodel", Run: "^TestRing$", Race: false,
 		QuickShards: 16, ThoroughShards: 16, QuickWatchdog: 5 * time.Minute, ThoroughWatchdog: 40 * time.Minute,
